@@ -254,6 +254,9 @@ func safeParse(doc string) (s avro.Schema, err error, pan interface{}, site stri
 	return
 }
 
+// the previous Marshal result (as returned) and a private copy of it: a later Marshal must not change it
+var prevOut, prevCopy []byte
+
 func safeMarshal(s *avro.Schema) (b []byte, err error, pan interface{}, site string) {
 	defer func() {
 		if r := recover(); r != nil {
@@ -293,6 +296,12 @@ func checkDoc(c *fw.Ctx, ast *ref.Schema, doc string, variant string) {
 		c.Violation("marshal-error|"+kind, fmt.Sprintf("Marshal failed: %v for %s", err, clipS(doc, 200)), det)
 		return
 	}
+	if prevOut != nil && string(prevOut) != string(prevCopy) {
+		c.Violation("marshal-result-changed-by-later-marshal|"+kind, fmt.Sprintf("bytes returned by an earlier Marshal (%s) were modified by a later Marshal call (now %s)", clipS(string(prevCopy), 120), clipS(string(prevOut), 120)), det)
+		prevOut = nil
+		return
+	}
+	prevOut, prevCopy = out, append([]byte(nil), out...)
 	det["marshalled"] = clipS(string(out), 600)
 	if !json.Valid(out) {
 		c.Violation("marshal-invalid-json|"+kind, fmt.Sprintf("Marshal output is not valid JSON: %s", clipS(string(out), 200)), det)
